@@ -123,7 +123,11 @@ fn decode(tape: &[u8]) -> Case19 {
     }
     // observer
     let obs_tkind = gen_tkind(&mut t);
-    let obs_proto = if t.weighted(&[3, 1]) == 0 { Proto::V20 } else { Proto::V14 };
+    let obs_proto = match t.weighted(&[6, 2, 2]) {
+        0 => Proto::V20,
+        1 => Proto::V14,
+        _ => Proto::Capped(15 + t.below(5) as u8),
+    };
     let obs_tasks = 1 + t.weighted(&[1, 2, 1]);
     clients.push(ClientSpec { proto: obs_proto, tkind: obs_tkind, tasks: obs_tasks, final_mode: FinalMode::Shutdown });
     // truth listener
@@ -1081,6 +1085,9 @@ fn run(c: &Case19) -> Result<Outcome, Outcome> {
     }
     if c.clients[obs_idx].proto == Proto::V14 {
         classes.push("observer-1.14");
+    }
+    if matches!(c.clients[obs_idx].proto, Proto::Capped(_)) {
+        classes.push("observer-1.15..1.19");
     }
     if log.meta.values().any(|(e, _)| e.len() >= 2) {
         classes.push("several-entries");
